@@ -22,6 +22,16 @@ pub enum Call {
     HSet(Vec<u8>),
     HGet,
     HDel,
+    /// a collection holding at most the one fixed member "m" (set / sorted set): add it ...
+    AddMember,
+    /// ... remove it by a command that replies the number of removed members (SREM, ZREM, ZREMRANGEBY*, LREM, EXPIREAT in the past, EVAL del)
+    RemoveCount,
+    /// ... remove it by a command that replies the member or nil (SPOP, ZPOPMIN/MAX -> first element)
+    PopMember,
+    /// ... empty it by a command that always replies OK (LTRIM 1 0)
+    ClearOk,
+    /// ... count the members (SCARD, ZCARD, LLEN of a list holding at most one element)
+    Card,
 }
 
 #[derive(Debug, Clone, PartialEq, Eq)]
@@ -76,7 +86,11 @@ fn step(state: &State, call: &Call) -> (State, Ret) {
                 None => (state.clone(), Ret::Unknown), // error reply, no effect
             }
         }
-        Call::Del | Call::HDel => (None, Ret::Int(if state.is_some() { 1 } else { 0 })),
+        Call::Del | Call::HDel | Call::RemoveCount => (None, Ret::Int(if state.is_some() { 1 } else { 0 })),
+        Call::AddMember => (Some(b"m".to_vec()), Ret::Int(if state.is_some() { 0 } else { 1 })),
+        Call::PopMember => (None, Ret::Val(state.clone())),
+        Call::ClearOk => (None, Ret::Ok),
+        Call::Card => (state.clone(), Ret::Int(if state.is_some() { 1 } else { 0 })),
         Call::Exists | Call::Touch => (state.clone(), Ret::Int(if state.is_some() { 1 } else { 0 })),
     }
 }
